@@ -189,3 +189,13 @@ impl Drop for MemoryManagerInner {
 }
 
 unsafe impl Send for ToFree {}
+
+#[cfg(multiqueue2_verif)]
+impl MemoryManager {
+    pub fn verif_layout(&self, l: &mut crate::verif_hooks::Layout) {
+        l.signal = self.signal.verif_addr();
+        l.epoch = &self.epoch as *const AtomicUsize as usize;
+        l.mem_manager = &self.mem_manager as *const _ as usize;
+        l.wait_to_free = &self.wait_to_free as *const _ as usize;
+    }
+}
